@@ -156,7 +156,7 @@ def run_property(pid, tier="quick", seed=0, update=False):
             (alarm_failed if pid in ob.alarm else support_failed).append((ob, [k.get("reason", "")]))
 
     for bn in spec.get("bounded_search", []):
-        if search_result is not None or True:
+        if True:
             bounded.append({"obligation": bn["obligation"], "bound": bn["bound"], "backend": "exhaustive enumeration on the real code (replay crate)",
                             "status": "pending"})
     if update:
